@@ -441,7 +441,7 @@ func (e *Exec) doDelete(i int, op Op) bool {
 			}
 			// R7: the range ends one nanosecond after a dependant's sample and not on an
 			// index sample (the start of a rollover domain of that dependant)
-			if (e.Model.Has(c.Key, op.B-1) || e.delEnds[c.Key][op.B]) && !e.Model.Has(k, op.B) {
+			if (e.Model.Has(c.Key, op.B-1) || e.delEnds[c.Key][op.B] || e.everAt(c.Key, op.B-1)) && !e.Model.Has(k, op.B) {
 				tag += "r7pre,"
 			}
 		}
@@ -517,6 +517,17 @@ func (e *Exec) doDelete(i int, op Op) bool {
 		}
 	}
 	return true
+}
+
+// everAt: was a sample with timestamp ts ever written to channel k (a stored domain of k
+// may still start right after it although the sample has been deleted since)?
+func (e *Exec) everAt(k uint32, ts int64) bool {
+	for _, st := range e.Ever[k] {
+		if st.TS == ts {
+			return true
+		}
+	}
+	return false
 }
 
 func (e *Exec) doGC(i int) bool {
